@@ -9,7 +9,7 @@ import sched as schedmod
 PROP_FILES = ["State/Properties_C14.v"]
 MANIFEST = dict(
     technique="Coq proof by invariants preserved by every atomic step of n processes over a file-system model (names/inodes/flock), for arbitrary schedules (list pid, lock time-outs as a scheduling outcome of try-lock-with-deadline); tied to /repo by driving real processes through explicit schedules with the verif-hooks barriers (tools/sched.py) and comparing final files, exit codes, messages, hook traces and lock waits with the model",
-    text="Theorems C14_no_torn_read, C14_final_is_some_writers, C14_written_is_complete, C14_never_blocked, C14_wait_bounded, C14_finishes_under_any_schedule, C14_lock_wait_within_timeout (the polling loop as a state machine over elapsed/interval: gives up in [time-out, time-out + one poll interval); C14_doubling_backoff_overshoots is the counterexample for a doubling interval), C14_snapshot_not_lost, C14_update_lock_exclusive, C14_update_lock_name_stable (the lock is taken on the inode <file>.lock denoted at open time; that name is never unbound or rebound), C14_lost_update_characterised hold for every number of processes, every command mix, every poll budget and every schedule (unbounded; D14, D15, D27 repaired, no known class; C14_unlocked_update_lost keeps the D15 witness for writers without the update lock). Tie: systematic + sampled (quick) or all (thorough) interleavings of the update-lock / load / lock / rename / unlock points of two real processes (sampled: three) for each command pair sharing a file (snapshot+snapshot, check+check on the cache, update-baseline+check --baseline, update-baseline x2 incl. temp-file points, snapshot+stats history, check with auto_snapshot_on_check + snapshot) and each initial state, dedicated wall-clock measurements of a waiter blocked for good on the update lock / the exclusive / the shared lock with a 1000 ms time-out (bound: time-out + 50 ms + 0.25 s), a three-snapshot schedule family around upd:before_lock / upd:after_lock / snap:after_load, the inode number of <file>.lock sampled after every event (must never change or vanish), model-free continuation of a schedule after a divergence so that the property oracle still judges its outcome, lock time-outs forced with SGV_LOCK_TIMEOUT_MS=200.",
+    text="Theorems C14_no_torn_read, C14_final_is_some_writers, C14_written_is_complete, C14_never_blocked, C14_wait_bounded, C14_finishes_under_any_schedule, C14_lock_wait_within_timeout (the polling loop as a state machine over elapsed/interval: gives up in [time-out, time-out + one poll interval); C14_doubling_backoff_overshoots is the counterexample for a doubling interval), C14_snapshot_not_lost, C14_update_lock_exclusive, C14_update_lock_name_stable (the lock is taken on the inode <file>.lock denoted at open time; that name is never unbound or rebound), C14_lost_update_characterised hold for every number of processes, every command mix, every poll budget and every schedule (unbounded; D14, D15, D27 repaired, no known class; C14_unlocked_update_lost keeps the D15 witness for writers without the update lock). Tie: systematic + sampled (quick) or all (thorough) interleavings of the update-lock / load / lock / rename / unlock points of two real processes (sampled: three) for each command pair sharing a file (snapshot+snapshot, check+check on the cache, update-baseline+check --baseline, update-baseline x2 incl. temp-file points, snapshot+stats history, check with auto_snapshot_on_check + snapshot; the reader-holds-the-lock pairs also with the state file reached through a symbolic link) and each initial state, a reader run by the controller after every event (open, shared lock without waiting, read: never empty or torn), dedicated wall-clock measurements of a waiter blocked for good on the update lock / the exclusive / the shared lock with a 1000 ms time-out (bound: time-out + 50 ms + 0.25 s), a three-snapshot schedule family around upd:before_lock / upd:after_lock / snap:after_load, the inode number of <file>.lock sampled after every event (must never change or vanish), model-free continuation of a schedule after a divergence so that the property oracle still judges its outcome, lock time-outs forced with SGV_LOCK_TIMEOUT_MS=200.",
     note="The wait bound is per lock acquisition (a command makes up to three in a row: update, shared, exclusive), not per process. Trusted: Coq kernel, extraction, kernel flock/rename semantics (State/Fs.v), the barrier hooks (a process is paused only AT a hook point); wall-clock bounds (no lock wait beyond the time-out) are measured on each run, not proved; C14_wait_bounded is the model-level statement (bounded number of own steps, never blocked).",
     ref="5 (C14), 9")
 
@@ -31,8 +31,13 @@ PTS_TEMP = ["load:after_open", "load:after_lock", "aw:after_create_temp", "aw:af
 
 
 class Scen:
-    def __init__(self, name, kind, files, procs, init_cmds, pts=PTS_FULL, config=None):
+    def __init__(self, name, kind, files, procs, init_cmds, pts=PTS_FULL, config=None, link=False, ns=False):
         self.name, self.kind, self.files, self.procs, self.init_cmds, self.pts, self.config = name, kind, files, procs, init_cmds, pts, config
+        # link: the state file is a symbolic link into <project>/shared/ (a state file shared between checkouts);
+        # `absent` is then a dangling link. The model is the same: a link is a name like any other, the save renames over it.
+        self.link = link
+        # ns: every process is pid 1 of its own PID namespace (two containers sharing the project directory)
+        self.ns = ns
 
 
 def scenarios():
@@ -67,7 +72,23 @@ def scenarios():
         Scen("snapshot x3", "history", proj, {1: snap(1), 2: snap(2), 3: snap(3)}, init_hist, PTS_SNAP),
         Scen("snapshot x3 (update lock)", "history", proj, {1: snap(1), 2: snap(2), 3: snap(3)}, init_hist, PTS_UPD),
     ]
+    # the reader-holds-the-lock pairs once more with the state file reached through a symbolic link
+    for base, label in (("update-baseline+check--baseline", "baseline"), ("snapshot+stats-history", "history"), ("check+check(cache)", "cache")):
+        b = [x for x in S if x.name == base][0]
+        S.append(Scen("%s [symlinked %s]" % (base, label), b.kind, b.files, b.procs, b.init_cmds, b.pts, b.config, link=True))
+    if ns_available():
+        b = [x for x in S if x.name == "update-baseline+update-baseline(temp files)"][0]
+        S.append(Scen(b.name + " [each pid 1 of its own PID namespace]", b.kind, b.files, b.procs, b.init_cmds, b.pts, b.config, ns=True))
     return S
+
+
+def ns_available():
+    import subprocess
+    try:
+        p = subprocess.run(["unshare", "--pid", "--fork", "sh", "-c", "echo $$"], capture_output=True, text=True, timeout=20)
+        return p.returncode == 0 and p.stdout.strip() == "1"
+    except Exception:
+        return False
 
 
 class Setup:
@@ -84,8 +105,16 @@ class Setup:
             if init == "valid":
                 for args, now in sc.init_cmds:
                     run_cli(sb, cli, args, now=now)
-            st, doc, _ = read_state(os.path.join(sb.proj, KIND_FILE[sc.kind]))
-            if st != ("absent" if init == "absent" else "ok"):
+            target = os.path.join(sb.proj, KIND_FILE[sc.kind])
+            if sc.link:
+                real = os.path.join(sb.proj, "shared", os.path.basename(target))
+                os.makedirs(os.path.dirname(real), exist_ok=True)
+                os.makedirs(os.path.dirname(target), exist_ok=True)
+                if os.path.exists(target):
+                    shutil.move(target, real)
+                os.symlink(os.path.relpath(real, os.path.dirname(target)), target)
+            st, doc, _ = read_state(target)
+            if st != ("absent" if init == "absent" else "ok") or (sc.link and not os.path.islink(target)):
                 raise CheckBroken(f"template {sc.name}/{init}: state file is {st}")
             self.templates[init] = sb
             self.init_entries[init] = entries_of(sc.kind, doc) if doc else None
@@ -174,17 +203,21 @@ def run_real(cli, setup, init, m, sched=None, lock_ms=LOCK_MS):
         tr = os.path.join(sb.base, "trace")
         for pid, pr in sc.procs.items():
             env = dict(sb.env)
-            env.update(base_env(pr["now"], {"SGV_TRACE": tr, "SGV_LOCK_TIMEOUT_MS": str(lock_ms)}))
-            ctl.add(pid, [cli, "--color", "never"] + pr["args"], env, sb.proj)
+            # one trace file per process: the operating-system pid does not identify a process (PID namespaces)
+            env.update(base_env(pr["now"], {"SGV_TRACE": "%s.p%d" % (tr, pid), "SGV_LOCK_TIMEOUT_MS": str(lock_ms)}))
+            ctl.add(pid, (["unshare", "--pid", "--fork"] if sc.ns else []) + [cli, "--color", "never"] + pr["args"], env, sb.proj)
         target = os.path.join(sb.proj, KIND_FILE[sc.kind])
         lockfile = target + ".lock"
         inodes = []
+
+        probes = []
 
         def sample():
             try:
                 inodes.append(os.stat(lockfile).st_ino)
             except FileNotFoundError:
                 inodes.append(None)
+            probes.append(probe_read(target))
         sample()
         div = ctl.run_plan(m["plan"], sc.pts, after_event=sample)
         if div is not None and sched is not None:
@@ -195,15 +228,41 @@ def run_real(cli, setup, init, m, sched=None, lock_ms=LOCK_MS):
             ctl.run_raw(rest, after_event=sample)
         ctl.finish()
         sample()
-        traces = read_trace(tr)
+        traces = {pid: [n for v in read_trace("%s.p%d" % (tr, pid)).values() for n in v] for pid in sc.procs}
         st, doc, _ = read_state(target)
-        obs = {"divergence": div, "lock_inodes": inodes, "lock_ms": lock_ms, "state": st, "entries": entries_of(sc.kind, doc) if doc else None,
+        obs = {"divergence": div, "lock_inodes": inodes, "probes": probes, "lock_ms": lock_ms, "state": st, "entries": entries_of(sc.kind, doc) if doc else None,
                "temps": temp_files(os.path.dirname(target), os.path.basename(target)), "procs": {}}
         for pid, pr in ctl.procs.items():
-            ospid = pr.p.pid if pr.p else None
             obs["procs"][pid] = {"rc": pr.rc, "out": pr.out.replace(sb.base, "<SB>"), "err": pr.err.replace(sb.base, "<SB>"),
-                                 "trace": traces.get(ospid, []), "waits": pr.waits}
+                                 "trace": traces.get(pid, []), "waits": pr.waits}
         return obs
+
+
+def probe_read(path):
+    """One more reader, run by the controller after every event (all controlled processes rest at a
+    barrier or have exited): open the state file, take the shared lock without waiting, read.
+    -> absent | locked (a writer holds the exclusive lock: no read) | empty | torn | ok"""
+    import fcntl
+    try:
+        f = open(path, "rb")
+    except FileNotFoundError:
+        return "absent"
+    with f:
+        try:
+            fcntl.flock(f, fcntl.LOCK_SH | fcntl.LOCK_NB)
+        except OSError:
+            return "locked"
+        try:
+            raw = f.read()
+        finally:
+            fcntl.flock(f, fcntl.LOCK_UN)
+    if not raw:
+        return "empty"
+    try:
+        json.loads(raw.decode("utf-8"))
+        return "ok"
+    except Exception:
+        return "torn"
 
 
 def reported(sc, pid, op):
@@ -298,6 +357,10 @@ def oracle(setup, init, m, o):
                 skipped = "save skipped" in op["err"]
                 bad.append(("skipped-acked" if skipped else "lost-update",
                             "process %d reported Snapshot recorded (entry %d) but the final history is %s" % (pid, ts, final)))
+    for i, pr in enumerate(o.get("probes", [])):
+        if pr in ("empty", "torn"):
+            bad.append(("torn-read", "a reader that opened the %s file and took the shared lock after event %d of the schedule read an %s file" % (sc.kind, i, pr)))
+            break
     if o["state"] in ("empty", "torn"):
         bad.append(("torn-final", "the final %s file is %s" % (sc.kind, o["state"])))
     writers = [pid for pid, pr in sc.procs.items() if pr["model"] in ("ub", "cc")]
@@ -373,8 +436,10 @@ def run(ctx):
                 counts = {p: sum(1 for (q, k, w) in solo["plan"] if q == p and k != "stuck") for p in sc.procs}
                 for w in witness_schedules(counts):
                     jobs.append((su, init, 1, w, "witness"))
-                    if three or rng.random() < 0.35:
+                    if three or sc.link or rng.random() < 0.35:
                         jobs.append((su, init, 0, w, "witness-polls0"))
+                if (sc.link and ctx.tier == "quick") or sc.ns:
+                    continue
                 if ctx.tier == "thorough" and not three and not (sc.pts is PTS_TEMP and init == "valid"):
                     for s in schedmod.interleavings(counts):
                         jobs.append((su, init, 1, s, "enumerated"))
